@@ -817,11 +817,14 @@ fn observe(res: Result<Builder<()>, re_geom::io::Error>, who: &str, rr: &mut Run
             let verts: Vec<[u32; 3]> = b.mesh.verts.iter().map(|v| v.pos.0.map(f32::to_bits)).collect();
             let tris: Vec<[usize; 3]> = b.mesh.faces.iter().map(|t| t.0).collect();
             let in_range = tris.iter().flatten().all(|&i| i < nv);
+            // build() must hand back the very mesh the builder holds
             let built = catch(|| {
                 let m = b.build();
-                (m.verts.len(), m.faces.len())
+                let v: Vec<[u32; 3]> = m.verts.iter().map(|v| v.pos.0.map(f32::to_bits)).collect();
+                let f: Vec<[usize; 3]> = m.faces.iter().map(|t| t.0).collect();
+                (v, f)
             });
-            let ok = in_range && built.as_ref().map_or(false, |&(v, f)| v == nv && f == tris.len());
+            let ok = in_range && built.as_ref().map_or(false, |(v, f)| *v == verts && *f == tris);
             rr.oracle("S", ok);
             if !in_range {
                 let bad = tris.iter().flatten().find(|&&i| i >= nv).unwrap();
@@ -833,7 +836,7 @@ fn observe(res: Result<Builder<()>, re_geom::io::Error>, who: &str, rr: &mut Run
             } else if let Err(c) = &built {
                 rr.violate(Violation::new("S", format!("build-{}", c.class()), format!("{who}: build() {}", c.detail())));
             } else if !ok {
-                rr.violate(Violation::new("S", "build-changed-counts", format!("{who}: build() changed element counts")));
+                rr.violate(Violation::new("S", "build-changed-mesh", format!("{who}: build() returned a mesh that differs from the builder's")));
             }
             ObjOut::Ok { verts, tris }
         }
